@@ -1,5 +1,6 @@
 import Tw.Model.GamenetTyping
 import Tw.Proofs.Gamenet
+import Tw.Proofs.GamenetCanon
 import Tw.Gen.Spec_tw05
 import Tw.Gen.Spec_tw06
 import Tw.Gen.Spec_tw07
@@ -80,6 +81,44 @@ theorem canonical_reencodes (ms : ML) (bs : List UInt8) (v : VL) (ws : List Warn
   rw [hd] at hd'
   cases hd'
   exact ⟨rfl, he⟩
+
+/-- *Exactly the described layout*: for every description without `optional` and without
+`int32_string` members, a byte string that decodes **without any warning** is the canonical
+encoding of the value it decodes to — `encode` writes back exactly the input.  (Together with
+`encode_decode_roundtrip`: "decodes without warning" ⇔ "is the encoding of an admitted value".)
+Both exclusions are necessary, see the two examples below. -/
+theorem clean_decode_is_canonical (ms : ML) (bs : List UInt8) (v : VL) (hno : noOptMs ms = true)
+    (hni : noIntStrMs ms = true) (hd : decodeMembers ms bs = .ok v []) : encStruct ms v = .ok bs :=
+  clean_decode_canonical ms bs v hno hni hd
+
+/-- `"+5"` and `"5"` both decode silently to 5 (`int32_string` uses `str::parse`) … -/
+example : decodeMembers (.cons .int32String .nil) [43, 53, 0] = .ok (.cons (.int 5) .nil) [] ∧
+    encStruct (.cons .int32String .nil) (.cons (.int 5) .nil) = .ok [53, 0] := by decide
+/-- … and an unreadable trailing optional member is silently absent. -/
+example : decodeMembers Tw.Gen.Spec_tw06.sys_info.members [48, 0, 120, 121] = .ok (.cons (.bytes [48]) (.cons .none .nil)) [] ∧
+    encStruct Tw.Gen.Spec_tw06.sys_info.members (.cons (.bytes [48]) (.cons .none .nil)) = .ok [48, 0] := by decide
+
+/-- How many of the shipped system / game / connless descriptions the hypotheses of
+`clean_decode_is_canonical` cover: (covered, all) per protocol. -/
+theorem tie_clean_canonical_coverage :
+    cleanCanonCount Tw.Gen.Spec_tw05.spec = (43, 43) ∧ cleanCanonCount Tw.Gen.Spec_tw06.spec = (52, 56) ∧
+    cleanCanonCount Tw.Gen.Spec_tw07.spec = (73, 74) ∧ cleanCanonCount Tw.Gen.Spec_ddnet.spec = (101, 107) := by
+  decide +kernel
+
+/-- *Whatever decodes can be written back* (the statement that failed before the fix of D24):
+for every description whose optional members are its trailing members, every byte string that
+`decode` accepts — canonical or not, with or without warnings — yields a value that `encode`
+accepts, and the bytes written decode to the same value without warnings. -/
+theorem decoded_message_reencodes (ms : ML) (bs : List UInt8) (v : VL) (ws : List Warning)
+    (hwf : wfMs ms = true) (hol : optsLast ms = true) (hd : decodeMembers ms bs = .ok v ws) :
+    ∃ bs', encStruct ms v = .ok bs' ∧ decodeMembers ms bs' = .ok v [] :=
+  decoded_reencodes ms bs v ws hwf hol hd
+
+/-- In every shipped message description the optional members are the trailing ones. -/
+theorem tie_optionals_last :
+    optsLastProto Tw.Gen.Spec_tw05.spec = true ∧ optsLastProto Tw.Gen.Spec_tw06.spec = true ∧
+    optsLastProto Tw.Gen.Spec_tw07.spec = true ∧ optsLastProto Tw.Gen.Spec_ddnet.spec = true := by
+  decide +kernel
 
 /-- The same with message ids: `System::encode` / `Game::encode`, then `msg::decode` dispatching on
 the id (`ordinal << 1 | sys`, or 0 and a UUID). -/
@@ -199,12 +238,50 @@ theorem decoded_object_is_welltyped (ms : ML) (inp : List Int) (v : VL) (ex : Bo
     exact decOs_wt ms inp vs r hi h
   · simp at hd
 
+/-- A snapshot object decoder accepts exactly `int_size` integers without "excess data": what it
+consumes is the size that `obj_size` reports for the type (`tie_obj_size`). -/
+theorem decoded_object_consumes_obj_size (ms : ML) (inp : List Int) (v : VL) (hwf : wfOs ms = true)
+    (hd : decodeObjMembers ms inp = .ok v false) : inp.length = intSize ms := by
+  unfold decodeObjMembers at hd
+  split at hd
+  · rename_i vs r h
+    simp at hd
+    have := decOs_len ms inp vs r hwf h
+    have hr : r = [] := by cases r <;> simp_all
+    subst hr
+    simpa using this
+  · simp at hd
+
 /-- The full statement for snapshot objects ("re-exposed as the same words"): the words an object
 was decoded from are what `encode` returns.  It does not hold for objects with boolean members
 (open finding D25, `obj_bool_witness`). -/
 def C14_full : Prop :=
   ∀ (ms : ML) (inp : List Int), wfOs ms = true → ms ≠ .nil → (∀ x ∈ inp, inI32 x) →
     (∃ v, decodeObjMembers ms inp = .ok v false) → encodedWords ms inp = some (inp.map some)
+
+/-- *Snapshot objects are re-exposed as the same words* — proved for every object description
+without boolean members (every field of the `#[repr(C)]` struct is then four bytes wide): the
+words returned by `encode` are exactly the words the object was decoded from.  The excluding
+hypothesis `noBool ms` is the negation of the classifier of the open finding D25. -/
+theorem object_words_reexposed_partial (ms : ML) (inp : List Int) (hwf : wfOs ms = true)
+    (hnb : noBool ms = true) (hne : ms ≠ .nil) (hi : ∀ x ∈ inp, inI32 x)
+    (hd : ∃ v, decodeObjMembers ms inp = .ok v false) : encodedWords ms inp = some (inp.map some) :=
+  encodedWords_noBool ms inp hwf hnb hne hi hd
+
+/-- Which shipped snapshot objects the hypothesis excludes: exactly the four of D25. -/
+theorem tie_objects_with_bool :
+    ((Tw.Gen.Spec_tw05.spec.objects.filter fun s => !noBool s.members).map (·.name)) = [] ∧
+    ((Tw.Gen.Spec_tw06.spec.objects.filter fun s => !noBool s.members).map (·.name)) = [] ∧
+    ((Tw.Gen.Spec_tw07.spec.objects.filter fun s => !noBool s.members).map (·.name))
+      = ["player_input", "de_client_info", "damage"] ∧
+    ((Tw.Gen.Spec_ddnet.spec.objects.filter fun s => !noBool s.members).map (·.name))
+      = ["ddnet_spectator_info"] := by
+  decide +kernel
+
+example : wfOs Tw.Gen.Spec_tw06.obj_character.members = true ∧ noBool Tw.Gen.Spec_tw06.obj_character.members = true ∧
+    (∃ v, decodeObjMembers Tw.Gen.Spec_tw06.obj_projectile.members [1, 2, 3, 4, 5, 6] = .ok v false) := by
+  refine ⟨by decide, by decide, ?_⟩
+  exact ⟨.cons (.int 1) (.cons (.int 2) (.cons (.int 3) (.cons (.int 4) (.cons (.int 5) (.cons (.int 6) .nil))))), by decide⟩
 
 /-- D25 in the model: the 0.7 object `DeClientInfo` decodes 58 zero words, `encode` returns 54
 words, two of them containing padding bytes. -/
